@@ -3,6 +3,36 @@ PROPS = {
     "C27": dict(
         engine="p_shape", quick_checks=100000, thorough_checks=5000000, quick_shards=14, thorough_shards=16,
         quick_budget_s=240, thorough_budget_s=1500, needs_cli=False, level="exploration",
-        rule="placeholder",
+        rule="every shape type constant of lib/shape (the list is compared with the source at start). fit cases: core grid 23 types x 20x20 content "
+             "sizes (0.5..3000: integers, halves, class boundaries) x 6 padding pairs (0,0 / the shape's default / 200,200 / 0,200 / 200,0 / 7.5,13), "
+             "then rapid: integer, half, tiny, large and float sizes, paddings 0 / default / integer / float in [0,200], box origin 0, integer or "
+             "fractional. oracle: (W,H)=GetDimensionsToFit on the content box as SizeToContent does, W=H=max for AspectRatio1 shapes; GetInnerBox "
+             "(cloud: GetInnerBoxForContent(w,h) and the SetInnerBoxAspectRatio pipeline) has width>=w, height>=h (1e-6 relative) and lies in the box. "
+             "trace cases: core grid types x 9 boxes (square, wide, tall, fractional, small, large) x 6 aim points x {24 angles, 4 exact axis "
+             "directions, 4 directions 0.002 rad off an axis} x 2 distances, then rapid boxes 2..3000 px, aim, angle (free / exactly axial / within "
+             "0.05 rad of an axis), previous-point distance 0.01..3000, border point exact or rounded to integers. oracle: if the ray previous point "
+             "-> border point enters the independently flattened outline (>= 2 crossings, first chord >= 1 px deep; else counted gray), "
+             "TraceToShapeBorder's point is within 1.5 px of that outline (SVG path data flattened to 0.01 px; ellipse for oval/circle; rectangle for "
+             "shapes without path data). non-trivial = non-rectangular shape type; distinct by SHA-256 of the case. No symbolic reasoning: search only.",
+        assumptions=[
+            "'content' is the content size alone; inner >= content + padding is not promised by the code (oval pads along the diagonal) and is only counted",
+            "the border point lies on the box border and the previous point outside the box (documented precondition of TraceToShapeBorder)",
+            "rays that miss or graze the drawn outline, and boxes so small that the drawn outline leaves the box by more than 2.5 px, are counted, not asserted",
+            "coordinates within +-20000 so that the float32 truncation inside TraceToShapeBorder stays below 0.01 px",
+        ],
+    ),
+    "C33": dict(
+        engine="p_shape", quick_checks=210, thorough_checks=16000, quick_shards=14, thorough_shards=16,
+        quick_budget_s=300, thorough_budget_s=1500, needs_cli=False, level="exploration",
+        rule="(n boards, interval T ms): core n in 1..130 x T in {1,2,3,7,16,100,1000,1200,60000} plus n in {131,199..202,256,500,999..1001,2000} x "
+             "T in {1,2,5,99,100,101,1000,1e7}; rapid n<=2000 (biased to 1..20 and 90..210), T<=1e7. d2animate.Wrap is called with n stub boards; every "
+             "board element must reference @keyframes number i with duration n*T ms; percentages in [0,100], non-decreasing; the keyframes are evaluated "
+             "with CSS semantics at every integer and half millisecond when n*T<=20000, else at 2000 stratified times, plus just outside every transition "
+             "window and mid-interval: outside the windows [kT-1-s, kT+s] (s = 5e-9*n*T + 1e-6 ms print rounding) board floor(t/T) has opacity 1, every "
+             "other board 0. non-trivial = n>=2 and at least n asserted times.",
+        assumptions=[
+            "a later keyframe rule wins for an equal offset and equal offsets merge (CSS Animations); the timing function only matters inside fades",
+            "each Wrap call costs ~0.15 s (font subsetting), which bounds the number of cases",
+        ],
     ),
 }
